@@ -2,13 +2,15 @@
 # usage: tools/seed_tests.sh <name...>   -- runs the repository's pinned test suite on a scratch worktree
 # with each seeded change applied (never in /repo), and records the outcome in seeded/<name>/tests.log
 set -u
-WT=/tmp/wt_seedtests
+WT=${SEED_WT:-/tmp/wt_seedtests}
 git -C /repo worktree remove --force $WT 2>/dev/null; git -C /repo worktree prune
 git -C /repo worktree add --detach $WT HEAD >/dev/null 2>&1 || exit 3
 trap 'git -C /repo worktree remove --force $WT; git -C /repo worktree prune' EXIT
 for n in "$@"; do
   D=/verif/seeded/$n
-  (cd $WT && git checkout -q -- . && git clean -fdq && git apply $D/patch.diff) || { echo "$n: patch does not apply" | tee $D/tests.log; continue; }
+  if [ "$n" = "HEAD" ]; then D=/verif/seeded/.head; mkdir -p $D; : > $D/patch.diff; fi
+  P=$D/patch.diff; [ -f $D/patch_rebased.diff ] && P=$D/patch_rebased.diff
+  (cd $WT && git checkout -q -- . && git clean -fdq && { [ ! -s $P ] || git apply $P; }) || { echo "$n: patch does not apply" | tee $D/tests.log; continue; }
   (cd $WT && timeout 3000 /venv/bin/python -m pytest -q -p no:cacheprovider --timeout=900 -n ${SEED_JOBS:-8} -x --maxfail=60 2>&1 | grep -E "^FAILED|^ERROR|passed|failed" | grep -v "testpep561" > $D/tests.log)
   echo "$n: $(tail -1 $D/tests.log)"
 done
